@@ -1,5 +1,6 @@
 import Ebv.Lemmas.Homo
 import Ebv.Lemmas.Assign
+import Ebv.Lemmas.Surface
 /-! # C01 — integer DSL expressions compute the exact value
 
 Model: `Ebv.Gen` (tied to ebpfcat/ebpf.py by exact opcode-list correspondence, harness/vh/props/c01.py).
@@ -63,6 +64,7 @@ theorem sumAddr_asSum (base : Nat) (off : Int) : (sumAddr base off).asSum = some
 inductive CStmt where
   | reg (no : Nat) (long : Bool) (e : Expr)
   | mem (fmt : Fmt) (base : Nat) (off : Int) (e : Expr)
+deriving DecidableEq
 
 def CStmt.emit : CStmt → GenM Unit
   | .reg no long e => setReg no long (.ex e)
@@ -254,13 +256,13 @@ theorem emitStmts_compile {env : List VarLoc} : ∀ {ss : List Stmt} {cs : List 
       simp only [emitStmts, emitC, emitStmt_compile h1, ih h2]
     · cases h
 
-/-- **C01 (partial)**: for every program all of whose statements are in the proved fragment and in none of the
+/-- **C01 on built trees**: for every program all of whose statements are in the proved fragment and in none of the
 defect classes (`oks`, decidable), if the generator accepts the program then for every machine state the emitted
 code, run by the instruction-set semantics `Ebpf.run` from its first instruction, falls out at its end in a state
 that satisfies the statement specifications in sequence (`specs`): each destination holds the mathematical value of
 its expression modulo 2^(8·size) in the destination's format, every other owned register and all other memory are
 unchanged. -/
-theorem C01_partial (p : Prog) (cs : List CStmt) (code : List Insn)
+theorem C01_core (p : Prog) (cs : List CStmt) (code : List Insn)
     (hcomp : compileAll (layout p.vars) p.stmts = some cs) (hok : oks p.owned cs = true)
     (hemit : emitProg p = .ok code) (σ : State) :
     ∃ σ', run code (code.length + 1) { σ with pc := 0 } = .fell { σ' with pc := code.length } ∧
@@ -277,5 +279,262 @@ theorem C01_partial (p : Prog) (cs : List CStmt) (code : List Insn)
     rw [hc]
     exact ⟨σ', run_of_exec hst he _ (Nat.le_refl _), hsp⟩
   · cases hemit
+
+/-! ## in terms of the surface program -/
+
+def CStmt.rhs : CStmt → Expr
+  | .reg _ _ e => e
+  | .mem _ _ _ e => e
+
+def _root_.Ebv.Gen.Stmt.rhs : Stmt → SExpr
+  | .set _ s => s
+
+/-- the surface-level side conditions (decidable): no computed addresses, not in class *sum-minus* -/
+def _root_.Ebv.Gen.Stmt.surfaceOk (env : List VarLoc) (st : Stmt) : Bool := st.rhs.noM && !sumMinus env st.rhs
+
+theorem compile_evalZ (env : List VarLoc) (σ : State) {st : Stmt} {cs : CStmt} (hc : compile env st = some cs)
+    (hok : st.surfaceOk env = true) : evalZ σ cs.rhs = st.rhs.evalZ env σ := by
+  cases st with
+  | set d s =>
+    simp only [Stmt.surfaceOk, Stmt.rhs, Bool.and_eq_true, Bool.not_eq_true'] at hok
+    simp only [compile] at hc
+    cases hv : elabE env s with
+    | error err => rw [hv] at hc; simp at hc
+    | ok v =>
+      rw [hv] at hc
+      simp only [] at hc
+      cases he : ensureExpr v with
+      | error err => rw [he] at hc; simp at hc
+      | ok e =>
+        rw [he] at hc
+        simp only [] at hc
+        have hvn : v ≠ .none := by intro h; subst h; simp [ensureExpr, typeError] at he
+        have hev : evalZ σ e = v.evalZ σ := by
+          cases v <;> simp [ensureExpr, typeError] at he <;> subst he <;> rfl
+        have hrhs : cs.rhs = e := by
+          cases d with
+          | reg view no => simp only [Option.some.injEq] at hc; subst hc; rfl
+          | var name =>
+            simp only [] at hc
+            cases hl : lookupVar env name with
+            | none => rw [hl] at hc; simp at hc
+            | some l => rw [hl] at hc; simp only [Option.map_some, Option.some.injEq] at hc; subst hc; rfl
+        rw [hrhs, hev]
+        exact elab_evalZ env σ s v hok.1 hok.2 hv hvn
+
+/-- the specification of a statement **in terms of the surface expression the user wrote**: the destination holds
+the Python-integer value of that expression modulo 2^(8·size), in the destination's format -/
+def specS (env : List VarLoc) (o : List Nat) (st : Stmt) : CStmt → State → State → Prop
+  | .reg no long e => fun σ σ' =>
+    (shiftsOk σ long e → AgreeZ long (σ'.regs no) (st.rhs.evalZ env σ)) ∧
+    (∀ n ∈ o, n ≠ no → σ'.regs n = σ.regs n) ∧ σ'.mem = σ.mem
+  | .mem fmt base off e => fun σ σ' =>
+    (∀ n ∈ o, σ'.regs n = σ.regs n) ∧
+    (shiftsOk σ fmt.isLong e → σ'.mem = storeN σ.mem (σ.regs base + BitVec.ofInt 64 off) fmt.size
+      (BitVec.ofInt 64 (st.rhs.evalZ env σ)).toNat)
+
+def specsS (env : List VarLoc) : List Nat → List Stmt → List CStmt → State → State → Prop
+  | _, [], [] => fun σ σ' => σ'.regs = σ.regs ∧ σ'.mem = σ.mem
+  | o, st :: sts, c :: cs => fun σ σ'' => ∃ σ', specS env o st c σ σ' ∧ specsS env (c.owners o) sts cs σ' σ''
+  | _, _, _ => fun _ _ => False
+
+theorem specs_surface (env : List VarLoc) : ∀ (sts : List Stmt) (cs : List CStmt) (o : List Nat) (σ σ' : State),
+    compileAll env sts = some cs → (sts.all (·.surfaceOk env)) = true → specs o cs σ σ' → specsS env o sts cs σ σ' := by
+  intro sts
+  induction sts with
+  | nil =>
+    intro cs o σ σ' hc _ h
+    simp [compileAll] at hc; subst hc
+    exact h
+  | cons st sts ih =>
+    intro cs o σ σ'' hc hok h
+    simp only [compileAll] at hc
+    split at hc
+    · rename_i c cs' h1 h2
+      cases hc
+      simp only [List.all_cons, Bool.and_eq_true] at hok
+      obtain ⟨σ', hsp, hrest⟩ := h
+      refine ⟨σ', ?_, ih cs' _ σ' σ'' h2 hok.2 hrest⟩
+      have hz := fun τ => compile_evalZ env τ h1 hok.1
+      cases c with
+      | reg no long e => simp only [CStmt.spec, specS, CStmt.rhs] at hsp hz ⊢; rw [← hz σ]; exact hsp
+      | mem fmt base off e => simp only [CStmt.spec, specS, CStmt.rhs] at hsp hz ⊢; rw [← hz σ]; exact hsp
+    · cases hc
+
+/-! ## the property -/
+
+/-- every hypothesis of `C01_partial` as one decidable predicate on the program: surface side conditions (no
+computed addresses, not *sum-minus*), every statement's right-hand side can be built, and every built statement is
+well-typed, inside the proved fragment and in none of the classes *unary-in-place*, *narrow-reg-in-64*,
+*unary-32-in-64* -/
+def progOk (p : Prog) : Bool :=
+  p.stmts.all (·.surfaceOk (layout p.vars)) &&
+    (match compileAll (layout p.vars) p.stmts with
+      | some cs => oks p.owned cs
+      | none => false)
+
+/-- **C01 (partial)** — integer DSL expressions compute the exact value.  For every program satisfying `progOk`
+that the generator accepts and every machine state: running the emitted code (`Ebpf.run`, from its first
+instruction) falls out at its end, and statement by statement the destination holds the Python-integer value of
+the surface expression modulo 2^(8·size) in the destination's format (under the shift-range precondition), while
+every other owned register and all memory outside the destination are unchanged. -/
+theorem C01_partial (p : Prog) (code : List Insn) (hok : progOk p = true) (hemit : emitProg p = .ok code) (σ : State) :
+    ∃ cs, compileAll (layout p.vars) p.stmts = some cs ∧
+      ∃ σ', run code (code.length + 1) { σ with pc := 0 } = .fell { σ' with pc := code.length } ∧
+        specsS (layout p.vars) p.owned p.stmts cs σ σ' := by
+  simp only [progOk, Bool.and_eq_true] at hok
+  obtain ⟨hs, hc⟩ := hok
+  split at hc
+  · rename_i cs hcs
+    obtain ⟨σ', hrun, hsp⟩ := C01_core p cs code hcs hc hemit σ
+    exact ⟨cs, hcs, σ', hrun, specs_surface _ _ _ _ _ _ hcs hs hsp⟩
+  · cases hc
+
+/-- the statement without the class exclusions: well-typed programs of the ring fragment (stages 1–2) -/
+def CStmt.typed (o : List Nat) : CStmt → Bool
+  | .reg _ _ e => leavesOwnedB o e && e.frag && e.ringOnly
+  | .mem _ base _ e => o.contains base && leavesOwnedB o e && e.frag && e.ringOnly
+
+def typeds (o : List Nat) : List CStmt → Bool
+  | [] => true
+  | s :: ss => s.typed o && typeds (s.owners o) ss
+
+def progTyped (p : Prog) : Bool :=
+  p.stmts.all (·.rhs.noM) &&
+    (match compileAll (layout p.vars) p.stmts with
+      | some cs => typeds p.owned cs
+      | none => false)
+
+/-- **the full-strength statement** (what the property text asks for on the ring fragment) -/
+def C01_full : Prop := ∀ (p : Prog) (code : List Insn), progTyped p = true → emitProg p = .ok code → ∀ σ : State,
+  ∃ cs, compileAll (layout p.vars) p.stmts = some cs ∧
+    ∃ σ', run code (code.length + 1) { σ with pc := 0 } = .fell { σ' with pc := code.length } ∧
+      specsS (layout p.vars) p.owned p.stmts cs σ σ'
+
+/-! ## non-vacuity and refutations (concrete programs and machine states; closed by kernel evaluation of the
+generator model and of `Ebpf.run`) -/
+
+/-- a machine state given by a few register values and memory bytes (everything else 0) -/
+def st0 (regs : List (Nat × Nat)) (mem : List (Nat × Nat) := []) : State :=
+  { regs := fun k => BitVec.ofNat 64 (((regs.find? (·.1 == k)).map (·.2)).getD 0),
+    mem := fun a => BitVec.ofNat 8 (((mem.find? (·.1 == a.toNat)).map (·.2)).getD 0), pc := 0 }
+
+def codeOf (p : Prog) : List Insn := match emitProg p with | .ok c => c | .error _ => []
+
+theorem codeOf_ok (p : Prog) (h : (emitProg p).toOption.isSome = true) : emitProg p = .ok (codeOf p) := by
+  unfold codeOf
+  cases hc : emitProg p with
+  | ok c => rfl
+  | error e => rw [hc] at h; simp [Except.toOption] at h
+
+/-- register `k` after running the code from `s` (0 if the run does not fall out at the end) -/
+def regAfter (code : List Insn) (s : State) (k : Nat) : Nat :=
+  match run code (code.length + 1) s with
+  | .fell s' => (s'.regs k).toNat
+  | _ => 0
+
+theorem regAfter_of_run {code : List Insn} {s s' : State} {k : Nat}
+    (h : run code (code.length + 1) s = .fell { s' with pc := code.length }) : regAfter code s k = (s'.regs k).toNat := by
+  unfold regAfter; rw [h]
+
+def stdVars : List VarDecl := [⟨"vq", .q, .loc⟩, ⟨"vh", .h, .loc⟩, ⟨"vb", .b, .loc⟩, ⟨"vI", .I, .loc⟩]
+
+/-- the value the property asks for, as a 64-bit pattern -/
+def want (p : Prog) (σ : State) (s : SExpr) : Nat := (BitVec.ofInt 64 (s.evalZ (layout p.vars) σ)).toNat
+
+/-- `self.w2 = (self.r3 + self.vh) * 5 - (self.sw4 << 3)`; `self.vq = -(self.vb * self.r3) ^ 0x123456789`:
+satisfies every hypothesis of `C01_partial` and is accepted by the generator (18 instructions) -/
+def pGood : Prog := ⟨[1, 3, 4, 10], stdVars,
+  [.set (.reg .w 2) (.bin .sub (.bin .mul (.bin .add (.reg .r 3) (.var "vh")) (.c 5)) (.bin .lsh (.reg .sw 4) (.c 3))),
+   .set (.var "vq") (.bin .xor (.neg (.bin .mul (.var "vb") (.reg .r 3))) (.c 0x123456789))]⟩
+
+example : progOk pGood = true ∧ (emitProg pGood).toOption.isSome = true ∧ (codeOf pGood).length = 18 := by
+  decide +kernel
+
+/-- *unary-in-place*: `self.vq = -self.r3` negates r3 itself -/
+def p1 : Prog := ⟨[1, 3, 10], stdVars, [.set (.var "vq") (.neg (.reg .r 3))]⟩
+def s1 : State := st0 [(3, 1), (10, 4096)]
+
+theorem unary_in_place_refuted :
+    progTyped p1 = true ∧ (emitProg p1).toOption.isSome = true ∧ regAfter (codeOf p1) s1 3 = 18446744073709551615 := by
+  decide +kernel
+
+/-- **the unchanged generator violates the full-strength statement** -/
+theorem C01_full_refuted : ¬ C01_full := by
+  intro h
+  obtain ⟨ht, hacc, hreg⟩ := unary_in_place_refuted
+  obtain ⟨cs, hcs, σ', hrun, hsp⟩ := h p1 (codeOf p1) ht (codeOf_ok p1 hacc) s1
+  have hcs' : compileAll (layout p1.vars) p1.stmts = some [CStmt.mem .q 10 (-8) (.neg (.reg 3 true false))] := by
+    decide +kernel
+  rw [hcs'] at hcs
+  cases hcs
+  simp only [p1, specsS, specS] at hsp
+  obtain ⟨σ1, ⟨hfr, _⟩, hregs, _⟩ := hsp
+  have h3 : σ'.regs 3 = s1.regs 3 := by rw [hregs]; exact hfr 3 (by simp)
+  have := regAfter_of_run (k := 3) hrun
+  have e : ({ s1 with pc := 0 } : State) = s1 := rfl
+  rw [e, hreg, h3] at this
+  revert this
+  decide +kernel
+
+/-- *unary-32-in-64*: `self.r2 = -self.vb` with vb = 1 gives 0xffffffff, not −1 -/
+def e2 : SExpr := .neg (.var "vb")
+def p2 : Prog := ⟨[1, 10], stdVars, [.set (.reg .r 2) e2]⟩
+def s2 : State := st0 [(10, 4096)] [(4085, 1)]
+theorem unary_32_in_64_refuted : progTyped p2 = true ∧ (emitProg p2).toOption.isSome = true ∧
+    regAfter (codeOf p2) s2 2 = 4294967295 ∧ want p2 s2 e2 = 18446744073709551615 := by decide +kernel
+
+/-- *narrow-reg-in-64*: `self.sr2 = self.sw3 * 1` with sw3 = −1 is zero-extended -/
+def e3 : SExpr := .bin .mul (.reg .sw 3) (.c 1)
+def p3 : Prog := ⟨[1, 3, 10], stdVars, [.set (.reg .sr 2) e3]⟩
+def s3 : State := st0 [(3, 0xffffffff), (10, 4096)]
+theorem narrow_reg_in_64_refuted : progTyped p3 = true ∧ (emitProg p3).toOption.isSome = true ∧
+    regAfter (codeOf p3) s3 2 = 4294967295 ∧ want p3 s3 e3 = 18446744073709551615 := by decide +kernel
+
+/-- *sum-minus*: `self.r2 = (self.r5 + 3) - self.r3` computes r5 + 3 + r3 -/
+def e4 : SExpr := .bin .sub (.bin .add (.reg .r 5) (.c 3)) (.reg .r 3)
+def p4 : Prog := ⟨[1, 3, 5, 10], stdVars, [.set (.reg .r 2) e4]⟩
+def s4 : State := st0 [(3, 4), (5, 10), (10, 4096)]
+theorem sum_minus_refuted : progTyped p4 = true ∧ (emitProg p4).toOption.isSome = true ∧
+    sumMinus (layout p4.vars) e4 = true ∧ regAfter (codeOf p4) s4 2 = 17 ∧ want p4 s4 e4 = 9 := by decide +kernel
+
+/-- *abs-32* (stage 3, corresponded only): `self.w2 = abs(self.sw3)` with sw3 = −1 is not negated -/
+def e5 : SExpr := .abs (.reg .sw 3)
+def p5 : Prog := ⟨[1, 3, 10], stdVars, [.set (.reg .w 2) e5]⟩
+def s5 : State := st0 [(3, 0xffffffff), (10, 4096)]
+theorem abs_32_refuted : (emitProg p5).toOption.isSome = true ∧
+    regAfter (codeOf p5) s5 2 % 2 ^ 32 = 4294967295 ∧ want p5 s5 e5 % 2 ^ 32 = 1 := by decide +kernel
+
+/-- *divmod-negative* (stage 3): `self.sr2 = self.sr3 // 2` with sr3 = −6: the unsigned DIV gives neither the
+flooring nor the truncating quotient (both −3) -/
+def e6 : SExpr := .bin .floordiv (.reg .sr 3) (.c 2)
+def p6 : Prog := ⟨[1, 3, 10], stdVars, [.set (.reg .sr 2) e6]⟩
+def s6 : State := st0 [(3, 18446744073709551610), (10, 4096)]
+theorem divmod_negative_refuted : (emitProg p6).toOption.isSome = true ∧
+    regAfter (codeOf p6) s6 2 = 9223372036854775805 ∧ want p6 s6 e6 = 18446744073709551613 ∧
+    Int.fdiv (-6) 2 = Int.tdiv (-6) 2 := by decide +kernel
+
+/-- *rshift-negative-logical* (stage 3): `self.w2 = (self.w3 - self.w4) >> 1` with w3 = 0, w4 = 2: the value is
+typed unsigned, the shift is logical -/
+def e7 : SExpr := .bin .rsh (.bin .sub (.reg .w 3) (.reg .w 4)) (.c 1)
+def p7 : Prog := ⟨[1, 3, 4, 10], stdVars, [.set (.reg .w 2) e7]⟩
+def s7 : State := st0 [(3, 0), (4, 2), (10, 4096)]
+theorem rshift_negative_refuted : (emitProg p7).toOption.isSome = true ∧
+    regAfter (codeOf p7) s7 2 % 2 ^ 32 = 2147483647 ∧ want p7 s7 e7 % 2 ^ 32 = 4294967295 := by decide +kernel
+
+/-! ## the inlined sign extension of `load` is what the generic path produces -/
+
+/-- `regs[dst] = (regs[dst] << shift) >> shift` through `RegisterArray.__setitem__` (view `sr` if `lg` else `sw`) -/
+def shiftExpr (dst : Nat) (lg : Bool) (shift : Int) : Expr :=
+  .bin .arsh (.bin .lsh (.reg dst lg true) (.const shift) true .plain) (.const shift) true .plain
+
+theorem load_shift_is_setitem (dst : Nat) (lg : Bool) (shift : Int) (hs : isSmall shift = true) (g : GenState) :
+    setReg dst lg (.ex (shiftExpr dst lg shift)) g =
+      (do addOwner dst
+          emit ⟨Consts.op_LSH + longBit lg, dst, 0, 0, shift⟩
+          emit ⟨Consts.op_ARSH + longBit lg, dst, 0, 0, shift⟩ : GenM Unit) g := by
+  by_cases hm : dst ∈ g.owners <;>
+    simp [setReg, shiftExpr, ensureExpr, calculate, binRight, binFinish, Expr.asSmallConst, hs, Expr.containsOpt,
+      Expr.contains, getFree, bind, GenM.bind, pure, GenM.pure, addOwner, getOwners, hm, emit, release, BinOp.opcode]
 
 end Ebv.C01
